@@ -383,6 +383,15 @@ func (in *inv) step(op *Op) {
 		})
 	case "cleanupnil": // an optional hook that is nil: t.Cleanup(nil)
 		t.Cleanup(nil)
+	case "recover": // user code that swallows whatever its body panics with (a deferred recover() around a callback): a *T signal raised inside must still count
+		func() {
+			defer func() {
+				if p := recover(); p != nil {
+					r.rec.Emit("recovered", F{"inv": in.id, "g": in.g})
+				}
+			}()
+			in.run(op.Body)
+		}()
 	case "goexit": // ends the goroutine without panicking (what testing.T.FailNow of an outer test does)
 		runtime.Goexit()
 	case "ctx":
